@@ -9,8 +9,11 @@ TRANSLATED from the working tree into executable Gallina on every run (pyexpr + 
   datacollection._record_agenttype  the three-way choice of the agent source
   datacollection.collect        the reporter dispatch chain
 Proofs/DataCollectorBridge.v and Proofs/BatchBridge.v prove `model function = generated function`.
-What cannot be translated (objects, dict state, library calls) is pinned by verbatim statement skeletons."""
+What cannot be translated (objects, dict state, library calls) is pinned by statement skeletons compared MODULO the names of
+local variables (alpha-renamed v0, v1, .. in order of first binding), docstrings, comments, formatting and exception messages."""
 import ast
+import copy
+import re
 
 import pyexpr
 import translate as T
@@ -92,8 +95,16 @@ class Tr2(pyexpr.Tr):
 
 
 def _fn(rel, name, cls=None):
+    """the function with its local variables alpha-renamed (v0, v1, ... in order of first binding; parameters keep their
+    names) and docstrings dropped: every check below is insensitive to the names of locals"""
     tree = T._parse(rel)
-    return T._find_func(T._find_class(tree, cls) if cls else tree, name)
+    fn = copy.deepcopy(T._find_func(T._find_class(tree, cls) if cls else tree, name))
+    mapping = {n: f"v{i}" for i, n in enumerate(pyexpr.local_names(fn))}
+    fn = pyexpr._Renamer(mapping).visit(fn)
+    for n in ast.walk(fn):
+        if isinstance(n, (ast.FunctionDef, ast.AsyncFunctionDef)):
+            n.body = _nodoc(n.body) or [ast.Pass()]
+    return fn
 
 
 def _guard(f, what):
@@ -107,77 +118,99 @@ def _nodoc(body):
     return [s for s in body if not (isinstance(s, ast.Expr) and isinstance(s.value, ast.Constant) and isinstance(s.value.value, str))]
 
 
+def _txt(node):
+    """source text with exception messages abstracted"""
+    return re.sub(r"raise (\w+)\((.*)\)", r"raise \1(<msg>)", ast.unparse(node))
+
+
+def _name(node, what):
+    if not isinstance(node, ast.Name):
+        raise T.Broken(f"{what}: a plain variable was expected, found {ast.unparse(node)[:40]}")
+    return node.id
+
+
 # ------------------------------------------------------------------ batchrunner._model_run_func
 def _run_func_parts():
     fn = _fn(BR, "_model_run_func")
-    body = _nodoc(fn.body)
+    body = fn.body
     whiles = [s for s in body if isinstance(s, ast.While)]
     if len(whiles) != 1 or whiles[0].orelse:
         raise T.Broken("expected exactly one while loop")
-    return fn, body, whiles[0]
-
-
-MODEL_NAMES = {"model.running": ("running", "bool"), "model.steps": ("steps", "Z")}
+    i = body.index(whiles[0])
+    if i < 1 or not (isinstance(body[i - 1], ast.Assign) and isinstance(body[i - 1].value, ast.Call)
+                     and ast.unparse(body[i - 1].value.func) == "model_cls"):
+        raise T.Broken("the model must be constructed directly before the loop")
+    return fn, body, whiles[0], _name(body[i - 1].targets[0], "model variable")
 
 
 def c_loop_cond():
-    _, _, w = _run_func_parts()
-    if [ast.unparse(s) for s in w.body] != ["model.step()"]:
+    _, _, w, m = _run_func_parts()
+    if [ast.unparse(s) for s in w.body] != [f"{m}.step()"]:
         raise T.Broken("the loop body is not `model.step()`")
-    tr = Tr2(text_map=MODEL_NAMES)
+    tr = Tr2(text_map={f"{m}.running": ("running", "bool"), f"{m}.steps": ("steps", "Z")})
     c = _guard(lambda: tr.truth(w.test), "the loop condition")
     return f"Definition gen_loop_cond (running : bool) (steps max_steps : Z) : bool :=\n  {c}."
 
 
 def c_report_steps():
-    _, body, w = _run_func_parts()
-    i = body.index(w)
-    after = [s for s in body[i + 1:]]
+    _, body, w, m = _run_func_parts()
+    after = body[body.index(w) + 1:]
     # data = []; collected = ...; steps = [...]; if ...: steps.append(...); for step in steps: ...
-    if len(after) < 5 or ast.unparse(after[0]) != "data = []":
+    if len(after) < 5 or not (isinstance(after[0], ast.Assign) and ast.unparse(after[0].value) == "[]"):
         raise T.Broken("expected `data = []` after the loop")
     s1, s2, s3 = after[1], after[2], after[3]
-    if ast.unparse(s1) != "collected = list(dict.fromkeys(model.datacollector._collection_steps))":
+    if not (isinstance(s1, ast.Assign) and ast.unparse(s1.value) == f"list(dict.fromkeys({m}.datacollector._collection_steps))"):
         raise T.Broken("`collected = list(dict.fromkeys(model.datacollector._collection_steps))` expected, found " + ast.unparse(s1)[:80])
-    if not (isinstance(s2, ast.Assign) and ast.unparse(s2.targets[0]) == "steps" and isinstance(s2.value, ast.ListComp)
+    col = _name(s1.targets[0], "collected")
+    if not (isinstance(s2, ast.Assign) and isinstance(s2.value, ast.ListComp)
             and len(s2.value.generators) == 1 and isinstance(s2.value.generators[0].target, ast.Name)
-            and ast.unparse(s2.value.generators[0].iter) == "collected"
+            and ast.unparse(s2.value.generators[0].iter) == col
             and ast.unparse(s2.value.elt) == s2.value.generators[0].target.id and len(s2.value.generators[0].ifs) == 1):
         raise T.Broken("`steps = [v for v in collected if <cond>]` expected")
+    stp = _name(s2.targets[0], "steps")
     var = s2.value.generators[0].target.id
-    tr = Tr2(zlists=["collected", "steps"])
+    tr = Tr2(zlists=[col, stp])
     sel = _guard(lambda: tr.truth(s2.value.generators[0].ifs[0]), "the step selection condition")
-    if not (isinstance(s3, ast.If) and not s3.orelse and [ast.unparse(x) for x in s3.body] == ["steps.append(collected[-1])"]):
+    if not (isinstance(s3, ast.If) and not s3.orelse and [ast.unparse(x) for x in s3.body] == [f"{stp}.append({col}[-1])"]):
         raise T.Broken("`if <cond>: steps.append(collected[-1])` expected")
     cond = _guard(lambda: tr.truth(s3.test), "the append-last condition")
-    if not (isinstance(after[4], ast.For) and ast.unparse(after[4].iter) == "steps"):
+    if not (isinstance(after[4], ast.For) and ast.unparse(after[4].iter) == stp):
         raise T.Broken("`for step in steps` expected after the reported-steps computation")
     return ("Definition gen_report_steps (data_collection_period : Z) (csteps : list Z) : list Z :=\n"
-            "  let collected := dedup_first Z.eqb csteps in\n"
-            f"  let steps := filter (fun {var} => {sel}) collected in\n"
-            f"  if {cond} then steps ++ [last collected 0] else steps.")
+            f"  let {col} := dedup_first Z.eqb csteps in\n"
+            f"  let {stp} := filter (fun {var} => {sel}) {col} in\n"
+            f"  if {cond} then {stp} ++ [last {col} 0] else {stp}.")
 
 
 # ------------------------------------------------------------------ batchrunner._collect_data
-def c_model_data():
+def _collect_data_parts():
     fn = _fn(BR, "_collect_data")
-    body = _nodoc(fn.body)
-    pos = [s for s in body if isinstance(s, ast.Assign) and ast.unparse(s.targets[0]) == "positions"]
-    md = [s for s in body if isinstance(s, ast.Assign) and ast.unparse(s.targets[0]) == "model_data"]
-    if len(pos) != 1 or len(md) != 1 or body.index(pos[0]) + 1 != body.index(md[0]):
-        raise T.Broken("expected `positions = ...` directly followed by `model_data = ...`")
-    p = pos[0].value
-    if not (isinstance(p, ast.ListComp) and len(p.generators) == 1 and ast.unparse(p.generators[0].iter) == "enumerate(dc._collection_steps)"
+    body = fn.body
+    dcs = [s for s in body if isinstance(s, ast.Assign) and ast.unparse(s.value) == "model.datacollector"]
+    if len(dcs) != 1:
+        raise T.Broken("`dc = model.datacollector` expected")
+    dc = _name(dcs[0].targets[0], "dc")
+    i = body.index(dcs[0])
+    if len(body) < i + 3 or not all(isinstance(x, ast.Assign) for x in body[i + 1:i + 3]):
+        raise T.Broken("`positions = ...; model_data = ...` expected after dc")
+    return fn, body, dc, body[i + 1], body[i + 2]
+
+
+def c_model_data():
+    _, body, dc, pos, md = _collect_data_parts()
+    p = pos.value
+    if not (isinstance(p, ast.ListComp) and len(p.generators) == 1 and ast.unparse(p.generators[0].iter) == f"enumerate({dc}._collection_steps)"
             and isinstance(p.generators[0].target, ast.Tuple) and len(p.generators[0].target.elts) == 2
             and all(isinstance(x, ast.Name) for x in p.generators[0].target.elts) and len(p.generators[0].ifs) == 1
             and ast.unparse(p.elt) == p.generators[0].target.elts[0].id):
         raise T.Broken("`positions = [i for i, s in enumerate(dc._collection_steps) if <cond>]` expected")
+    posn = _name(pos.targets[0], "positions")
     i, s = (x.id for x in p.generators[0].target.elts)
-    tr = Tr2(zlists=["positions"])
+    tr = Tr2(zlists=[posn])
     c = _guard(lambda: tr.truth(p.generators[0].ifs[0]), "the position condition")
-    m = md[0].value
+    m = md.value
     if not (isinstance(m, ast.IfExp) and isinstance(m.body, ast.DictComp) and ast.unparse(m.orelse) == "{}"
-            and len(m.body.generators) == 1 and ast.unparse(m.body.generators[0].iter) == "dc.model_vars.items()"
+            and len(m.body.generators) == 1 and ast.unparse(m.body.generators[0].iter) == f"{dc}.model_vars.items()"
             and isinstance(m.body.generators[0].target, ast.Tuple) and len(m.body.generators[0].target.elts) == 2
             and not m.body.generators[0].ifs):
         raise T.Broken("`model_data = {param: values[<index>] for param, values in dc.model_vars.items()} if <cond> else {}` expected")
@@ -188,40 +221,47 @@ def c_model_data():
     if ik != "Z":
         raise T.Broken("index is not an integer")
     test = _guard(lambda: tr.truth(m.test), "the test of model_data")
-    raw = [x for x in body if ast.unparse(x) == "raw_agent_data = dc._agent_records.get(step, [])"]
-    if len(raw) != 1:
-        raise T.Broken("`raw_agent_data = dc._agent_records.get(step, [])` expected")
     return ("Definition gen_positions (step : Z) (csteps : list Z) : list Z :=\n"
             f"  map fst (filter (fun '({i}, {s}) => {c}) (t_enum 0 csteps)).\n"
             "Definition gen_model_data {A : Type} (dflt : A) (step : Z) (csteps : list Z) (mvars : list (Z * list A)) : list (Z * A) :=\n"
-            "  let positions := gen_positions step csteps in\n"
+            f"  let {posn} := gen_positions step csteps in\n"
             f"  if {test} then map (fun '({k}, {v}) => ({k}, nth (Z.to_nat {idx}) {v} dflt)) mvars else [].")
 
 
 # ------------------------------------------------------------------ batchrunner._make_model_kwargs
 def c_param_values():
     fn = _fn(BR, "_make_model_kwargs")
-    body = _nodoc(fn.body)
+    body = fn.body
     fors = [s for s in body if isinstance(s, ast.For)]
-    if len(fors) != 1 or ast.unparse(fors[0].target) not in ("param, values", "(param, values)") or ast.unparse(fors[0].iter) != "parameters.items()":
+    if len(fors) != 1 or ast.unparse(fors[0].iter) != "parameters.items()" or not isinstance(fors[0].target, ast.Tuple) \
+            or len(fors[0].target.elts) != 2:
         raise T.Broken("`for param, values in parameters.items()` expected")
+    param, values = (_name(x, "loop target") for x in fors[0].target.elts)
     fb = fors[0].body
-    if len(fb) != 2 or not isinstance(fb[0], ast.If) or ast.unparse(fb[1]) != "parameter_list.append(all_values)":
+    if not (isinstance(body[0], ast.Assign) and ast.unparse(body[0].value) == "[]"):
+        raise T.Broken("`parameter_list = []` expected first")
+    plist = _name(body[0].targets[0], "parameter_list")
+    if len(fb) != 2 or not isinstance(fb[0], ast.If) or not re.fullmatch(rf"{plist}\.append\((v\d+)\)", ast.unparse(fb[1])):
         raise T.Broken("loop body: one if-chain, then parameter_list.append(all_values)")
+    allv = re.fullmatch(rf"{plist}\.append\((v\d+)\)", ast.unparse(fb[1])).group(1)
     rest = [ast.unparse(s) for s in body[body.index(fors[0]) + 1:]]
-    if ast.unparse(body[0]) != "parameter_list = []" or rest != ["all_kwargs = itertools.product(*parameter_list)",
-                                                                "kwargs_list = [dict(kwargs) for kwargs in all_kwargs]", "return kwargs_list"]:
-        raise T.Broken("the product / dict construction after the loop changed")
-    names = {"isinstance(values, str)": ("is_str", "bool"), "isinstance(values, list | tuple | set)": ("is_lts", "bool"),
-             "len(values)": ("len", "Z")}
+    if len(rest) != 3 or not re.fullmatch(rf"(v\d+) = itertools\.product\(\*{plist}\)", rest[0]):
+        raise T.Broken("`all_kwargs = itertools.product(*parameter_list)` expected after the loop")
+    allk = rest[0].split(" = ")[0]
+    m2 = re.fullmatch(rf"(v\d+) = \[dict\((v\d+)\) for (v\d+) in {allk}\]", rest[1])
+    if not m2 or m2.group(2) != m2.group(3) or rest[2] != f"return {m2.group(1)}":
+        raise T.Broken("`kwargs_list = [dict(kwargs) for kwargs in all_kwargs]; return kwargs_list` expected")
+    names = {f"isinstance({values}, str)": ("is_str", "bool"), f"isinstance({values}, list | tuple | set)": ("is_lts", "bool"),
+             f"len({values})": ("len", "Z")}
     tr = Tr2(text_map=names)
 
     def branch(stmts):
         if len(stmts) == 1 and isinstance(stmts[0], ast.Raise):
             return "None"
-        if len(stmts) == 1 and ast.unparse(stmts[0]) == "all_values = [(param, values)]":
+        if len(stmts) == 1 and ast.unparse(stmts[0]) == f"{allv} = [({param}, {values})]":
             return "(Some [(param, code)])"
-        if len(stmts) == 1 and ast.unparse(stmts[0]) == "all_values = [(param, value) for value in values]":
+        if len(stmts) == 1 and re.fullmatch(rf"{allv} = \[\({param}, (v\d+)\) for (v\d+) in {values}\]", ast.unparse(stmts[0])) \
+                and len(set(re.findall(r"v\d+", ast.unparse(stmts[0]).split("[", 1)[1])) - {param, values}) == 1:
             return "(Some (map (fun value => (param, value)) elems))"
         if len(stmts) == 1 and isinstance(stmts[0], ast.Try) and not stmts[0].orelse and not stmts[0].finalbody \
                 and len(stmts[0].handlers) == 1 and ast.unparse(stmts[0].handlers[0].type) == "TypeError":
@@ -236,35 +276,42 @@ def c_param_values():
             f"  : option (list (Z * Z)) :=\n  {t}.")
 
 
-# ------------------------------------------------------------------ batchrunner.batch_run: the runs list
-def c_runs_list():
+# ------------------------------------------------------------------ batchrunner.batch_run: the runs list and the results
+def _batch_parts():
     fn = _fn(BR, "batch_run")
-    body = _nodoc(fn.body)
-    if [ast.unparse(s) for s in body[:2]] != ["runs_list = []", "run_id = 0"] or not isinstance(body[2], ast.For):
+    body = fn.body
+    if len(body) < 3 or not (isinstance(body[0], ast.Assign) and ast.unparse(body[0].value) == "[]"
+                             and isinstance(body[1], ast.Assign) and ast.unparse(body[1].value) == "0" and isinstance(body[2], ast.For)):
         raise T.Broken("`runs_list = []; run_id = 0; for ...` expected at the start of batch_run")
+    return fn, body, _name(body[0].targets[0], "runs_list"), _name(body[1].targets[0], "run_id")
+
+
+def c_runs_list():
+    _, body, runs, rid = _batch_parts()
     outer = body[2]
-    if ast.unparse(outer.target) != "iteration" or ast.unparse(outer.iter) != "range(iterations)" or len(outer.body) != 1 \
-            or not isinstance(outer.body[0], ast.For):
+    if ast.unparse(outer.iter) != "range(iterations)" or len(outer.body) != 1 or not isinstance(outer.body[0], ast.For):
         raise T.Broken("`for iteration in range(iterations): for kwargs in ...` expected")
+    it = _name(outer.target, "iteration")
     inner = outer.body[0]
-    if ast.unparse(inner.target) != "kwargs" or ast.unparse(inner.iter) != "_make_model_kwargs(parameters)":
+    if ast.unparse(inner.iter) != "_make_model_kwargs(parameters)":
         raise T.Broken("`for kwargs in _make_model_kwargs(parameters)` expected")
+    kw = _name(inner.target, "kwargs")
     # inner body: appends of 3-tuples over run_id / iteration / kwargs and updates of run_id, in order
     tr = pyexpr.Tr()
-    out = "(run_id, acc)"
+    out = f"({rid}, acc)"
     steps = []
     for s in inner.body:
-        if isinstance(s, ast.Expr) and isinstance(s.value, ast.Call) and ast.unparse(s.value.func) == "runs_list.append" \
+        if isinstance(s, ast.Expr) and isinstance(s.value, ast.Call) and ast.unparse(s.value.func) == f"{runs}.append" \
                 and len(s.value.args) == 1 and isinstance(s.value.args[0], ast.Tuple) and len(s.value.args[0].elts) == 3:
             a, b, c = s.value.args[0].elts
-            if ast.unparse(c) != "kwargs":
+            if ast.unparse(c) != kw:
                 raise T.Broken("third component of a run must be kwargs")
             ta, ka = _guard(lambda: tr.expr(a), "run id")
             tb, kb = _guard(lambda: tr.expr(b), "iteration")
-            steps.append(("append", f"({ta}, {tb}, kwargs)"))
+            steps.append(("append", f"({ta}, {tb}, {kw})"))
         elif isinstance(s, (ast.AugAssign, ast.Assign)):
             b = _guard(lambda: tr._binding(s), "counter update")
-            if b is None or not b.startswith("let run_id :="):
+            if b is None or not b.startswith(f"let {rid} :="):
                 raise T.Broken("only run_id may be updated in the loop")
             steps.append(("let", b))
         else:
@@ -275,8 +322,72 @@ def c_runs_list():
         else:
             out = f"({t} {out})"
     return ("Definition gen_runs_list (iterations : Z) (prod : list (list (Z * Z))) : list (Z * Z * list (Z * Z)) :=\n"
-            "  snd (fold_left (fun st iteration => fold_left (fun st kwargs => let '(run_id, acc) := st in\n"
+            f"  snd (fold_left (fun st {it} => fold_left (fun st {kw} => let '({rid}, acc) := st in\n"
             f"    {out}) prod st) (zrange 0 (iterations - 1)) (0, [])).")
+
+
+def c_results():
+    """the tail of batch_run: the serial loop and the handling of what Pool.imap_unordered yields, translated.
+    `order` is the external outcome of imap_unordered: the runs in the order in which their results arrive."""
+    _, body, runs, _ = _batch_parts()
+    tail = body[3:]
+    if len(tail) != 4:
+        raise T.Broken(f"expected process_func / results / with tqdm / return after the runs loop, found {len(tail)} statements")
+    pf, res, wt, ret = tail
+    if not (isinstance(pf, ast.Assign) and ast.unparse(pf.value) ==
+            "partial(_model_run_func, model_cls, max_steps=max_steps, data_collection_period=data_collection_period)"):
+        raise T.Broken("`process_func = partial(_model_run_func, model_cls, max_steps=..., data_collection_period=...)` expected")
+    proc = _name(pf.targets[0], "process_func")
+    if not (isinstance(res, (ast.Assign, ast.AnnAssign)) and ast.unparse(res.value) == "[]"):
+        raise T.Broken("`results = []` expected")
+    results = _name(res.target if isinstance(res, ast.AnnAssign) else res.targets[0], "results")
+    if not (isinstance(wt, ast.With) and len(wt.items) == 1
+            and ast.unparse(wt.items[0].context_expr) == f"tqdm(total=len({runs}), disable=not display_progress)"
+            and wt.items[0].optional_vars is not None and len(wt.body) == 1 and isinstance(wt.body[0], ast.If)):
+        raise T.Broken("`with tqdm(total=len(runs_list), disable=not display_progress) as pbar: if ...` expected")
+    pbar = _name(wt.items[0].optional_vars, "pbar")
+    if ast.unparse(ret) != f"return {results}":
+        raise T.Broken("`return results` expected")
+    branch = wt.body[0]
+    cond = _guard(lambda: pyexpr.Tr().bexpr(branch.test), "the serial/parallel test")
+
+    def loop(fr, source):
+        """for x in <source>: [d = process_func(x);] results.extend(d); pbar.update()  ->  a fold over `source`"""
+        x = _name(fr.target, "loop variable")
+        val = x
+        out = None
+        for st in fr.body:
+            t = ast.unparse(st)
+            if t == f"{pbar}.update()":
+                continue                      # progress display only: pbar is used nowhere else
+            m = re.fullmatch(rf"(v\d+) = {proc}\({x}\)", t)
+            if m:
+                val = f"(process {x})"
+                bound = m.group(1)
+                continue
+            m = re.fullmatch(rf"{results}\.extend\((v\d+)\)", t)
+            if m and out is None and (m.group(1) == x or (val != x and m.group(1) == bound)):
+                out = f"(acc ++ {val})"
+                continue
+            raise T.Broken("unexpected statement in a results loop: " + t[:70])
+        if out is None:
+            raise T.Broken("a results loop that does not extend the results")
+        return f"fold_left (fun acc {x} => {out}) {source} []"
+
+    if not (len(branch.body) == 1 and isinstance(branch.body[0], ast.For) and ast.unparse(branch.body[0].iter) == runs and not branch.body[0].orelse):
+        raise T.Broken("serial branch: `for run in runs_list: ...` expected")
+    serial = loop(branch.body[0], "runs")
+    par = branch.orelse
+    if not (len(par) == 1 and isinstance(par[0], ast.With) and len(par[0].items) == 1
+            and ast.unparse(par[0].items[0].context_expr) == "Pool(number_processes)" and par[0].items[0].optional_vars is not None
+            and len(par[0].body) == 1 and isinstance(par[0].body[0], ast.For) and not par[0].body[0].orelse):
+        raise T.Broken("parallel branch: `with Pool(number_processes) as p: for data in ...` expected")
+    pool = _name(par[0].items[0].optional_vars, "pool")
+    if ast.unparse(par[0].body[0].iter) != f"{pool}.imap_unordered({proc}, {runs})":
+        raise T.Broken("`p.imap_unordered(process_func, runs_list)` expected")
+    parallel = loop(par[0].body[0], "(map process order)")
+    return ("Definition gen_batch_results {R X : Type} (process : X -> list R) (number_processes : Z) (runs order : list X) : list R :=\n"
+            f"  if {cond} then {serial} else {parallel}.")
 
 
 # ------------------------------------------------------------------ datacollection.add_table_row
@@ -284,7 +395,7 @@ def c_add_row():
     fn = _fn(DC, "add_table_row", "DataCollector")
     if [a.arg for a in fn.args.args] != ["self", "table_name", "row", "ignore_missing"]:
         raise T.Broken("unexpected parameters of add_table_row")
-    body = _nodoc(fn.body)
+    body = fn.body
     if len(body) != 3:
         raise T.Broken(f"expected 3 statements (unknown table, rejection test, append loop), found {len(body)}")
     s0, s1, s2 = body
@@ -321,15 +432,20 @@ def c_add_row():
 # ------------------------------------------------------------------ datacollection._record_agenttype
 def c_type_choice():
     fn = _fn(DC, "_record_agenttype", "DataCollector")
-    body = _nodoc(fn.body)
+    body = fn.body
     ifs = [s for s in body if isinstance(s, ast.If)]
     if len(ifs) != 1:
         raise T.Broken("expected one top-level if")
-    if ast.unparse(body[body.index(ifs[0]) - 1]) != "agent_types = model.agent_types":
+    before = body[body.index(ifs[0]) - 1]
+    if not (isinstance(before, ast.Assign) and ast.unparse(before.value) == "model.agent_types"):
         raise T.Broken("`agent_types = model.agent_types` expected before the choice")
-    if [ast.unparse(s) for s in body[body.index(ifs[0]) + 1:]] != ["agenttype_records = map(get_reports, agents)", "return agenttype_records"]:
+    types_ = _name(before.targets[0], "agent_types")
+    after = [ast.unparse(s) for s in body[body.index(ifs[0]) + 1:]]
+    m = re.fullmatch(r"(v\d+) = map\(get_reports, (v\d+)\)", after[0]) if len(after) == 2 else None
+    if not m or after[1] != f"return {m.group(1)}":
         raise T.Broken("the records must be map(get_reports, agents)")
-    names = {"agent_type in agent_types": ("in_types", "bool"), "model.agents_by_type[agent_type]": ("direct_nonempty", "bool"),
+    agents = m.group(2)
+    names = {f"agent_type in {types_}": ("in_types", "bool"), "model.agents_by_type[agent_type]": ("direct_nonempty", "bool"),
              "issubclass(agent_type, Agent)": ("is_agent", "bool")}
     tr = Tr2(text_map=names)
 
@@ -337,9 +453,9 @@ def c_type_choice():
         stmts = [s for s in stmts if not isinstance(s, ast.ImportFrom)]
         if len(stmts) == 1 and isinstance(stmts[0], ast.Raise) and ast.unparse(stmts[0].exc.func) == "ValueError":
             return "2"
-        if len(stmts) == 1 and ast.unparse(stmts[0]) == "agents = model.agents_by_type[agent_type]":
+        if len(stmts) == 1 and ast.unparse(stmts[0]) == f"{agents} = model.agents_by_type[agent_type]":
             return "0"
-        if len(stmts) == 1 and ast.unparse(stmts[0]) == "agents = [agent for agent in model.agents if isinstance(agent, agent_type)]":
+        if len(stmts) == 1 and re.fullmatch(rf"{agents} = \[(v\d+) for \1 in model\.agents if isinstance\(\1, agent_type\)\]", ast.unparse(stmts[0])):
             return "1"
         if len(stmts) == 1 and isinstance(stmts[0], ast.If):
             return f"(if {tr.truth(stmts[0].test)} then {branch(stmts[0].body)} else {branch(stmts[0].orelse)})"
@@ -350,35 +466,37 @@ def c_type_choice():
 
 
 # ------------------------------------------------------------------ datacollection.collect
+# statements modulo the names of locals (v0, v1, ..), docstrings, comments, formatting, exception messages
 COLLECT_SKELETON = [
-    "if self.model_reporters:\n    if not self._validated:\n        for name, reporter in self.model_reporters.items():\n"
-    "            self._validate_model_reporter(name, reporter, model)\n    for var, reporter in self.model_reporters.items():\n        <dispatch>",
+    "if self.model_reporters:\n    if not self._validated:\n        for v4, v1 in self.model_reporters.items():\n"
+    "            self._validate_model_reporter(v4, v1, model)\n    for v0, v1 in self.model_reporters.items():\n        <dispatch>",
     "self._collection_steps.append(model.steps)",
-    "if self.agent_reporters:\n    agent_records = self._record_agents(model)\n    self._agent_records[model.steps] = list(agent_records)",
-    "if self.agenttype_reporters:\n    self._agenttype_records[model.steps] = {}\n    for agent_type in self.agenttype_reporters:\n"
-    "        agenttype_records = self._record_agenttype(model, agent_type)\n"
-    "        self._agenttype_records[model.steps][agent_type] = list(agenttype_records)",
+    "if self.agent_reporters:\n    v2 = self._record_agents(model)\n    self._agent_records[model.steps] = list(v2)",
+    "if self.agenttype_reporters:\n    self._agenttype_records[model.steps] = {}\n    for v3 in self.agenttype_reporters:\n"
+    "        v5 = self._record_agenttype(model, v3)\n"
+    "        self._agenttype_records[model.steps][v3] = list(v5)",
 ]
 
 
 def _collect_dispatch():
     fn = _fn(DC, "collect", "DataCollector")
-    body = _nodoc(fn.body)
+    body = fn.body
     if not (body and isinstance(body[0], ast.If) and len(body[0].body) == 2 and isinstance(body[0].body[1], ast.For)
-            and len(body[0].body[1].body) == 1 and isinstance(body[0].body[1].body[0], ast.If)):
+            and len(body[0].body[1].body) == 1 and isinstance(body[0].body[1].body[0], ast.If)
+            and isinstance(body[0].body[1].target, ast.Tuple) and len(body[0].body[1].target.elts) == 2):
         raise T.Broken("the model-reporter loop with its if-chain was not found")
-    return fn, body, body[0].body[1].body[0]
+    return fn, body, body[0].body[1].body[0], [_name(x, "loop target") for x in body[0].body[1].target.elts]
 
 
 def c_dispatch():
-    _, _, chain = _collect_dispatch()
-    names = {"isinstance(reporter, types.LambdaType | partial)": ("is_fun", "bool"), "isinstance(reporter, str)": ("is_str", "bool"),
-             "isinstance(reporter, list)": ("is_list", "bool")}
+    _, _, chain, (var, rep) = _collect_dispatch()
+    names = {f"isinstance({rep}, types.LambdaType | partial)": ("is_fun", "bool"), f"isinstance({rep}, str)": ("is_str", "bool"),
+             f"isinstance({rep}, list)": ("is_list", "bool")}
     tr = Tr2(text_map=names)
-    forms = {"self.model_vars[var].append(deepcopy(reporter(model)))": "1",
-             "self.model_vars[var].append(deepcopy(getattr(model, reporter, None)))": "2",
-             "self.model_vars[var].append(deepcopy(reporter[0](*reporter[1])))": "3",
-             "self.model_vars[var].append(deepcopy(reporter()))": "4"}
+    forms = {f"self.model_vars[{var}].append(deepcopy({rep}(model)))": "1",
+             f"self.model_vars[{var}].append(deepcopy(getattr(model, {rep}, None)))": "2",
+             f"self.model_vars[{var}].append(deepcopy({rep}[0](*{rep}[1])))": "3",
+             f"self.model_vars[{var}].append(deepcopy({rep}()))": "4"}
 
     def branch(stmts):
         if len(stmts) == 1 and isinstance(stmts[0], ast.If):
@@ -398,69 +516,54 @@ def _skeleton(got, want, what):
         raise T.Broken(f"statement skeleton of {what} changed: " + diff[0][:220])
 
 
+GET_REPORTS = "def get_reports({a}):\n    {p} = ({a}.model.steps, {a}.unique_id)\n    {r} = tuple(({f}({a}) for {f} in v0))\n    return {p} + {r}"
+
+
 def c_collect_skeleton():
     """collect outside the dispatch chain: validation once, then the loop; the step of the collection is appended after
-    the model reporters; agent records are keyed by model.steps (assignment = replace); agent-type records likewise"""
-    fn, body, chain = _collect_dispatch()
+    the model reporters; agent records are keyed by model.steps (assignment = replace); agent-type records likewise;
+    every row starts with (agent.model.steps, agent.unique_id)"""
+    fn, body, chain, _ = _collect_dispatch()
     got = []
     for st in body:
-        txt = ast.unparse(st)
+        txt = _txt(st)
         if st is body[0]:
             txt = txt.replace(ast.unparse(chain).replace("\n", "\n        "), "<dispatch>")
         got.append(txt)
     _skeleton(got, COLLECT_SKELETON, "collect")
     rec = _fn(DC, "_record_agents", "DataCollector")
-    want = ["rep_funcs = self.agent_reporters.values()",
-            "def get_reports(agent):\n    _prefix = (agent.model.steps, agent.unique_id)\n    reports = tuple((rep(agent) for rep in rep_funcs))\n    return _prefix + reports",
-            "agent_records = map(get_reports, model.agents)", "return agent_records"]
-    _skeleton([ast.unparse(s) for s in _nodoc(rec.body)], want, "_record_agents")
+    want = ["v0 = self.agent_reporters.values()", GET_REPORTS.format(a="agent", p="v2", r="v3", f="v4"),
+            "v1 = map(get_reports, model.agents)", "return v1"]
+    _skeleton([_txt(s) for s in rec.body], want, "_record_agents")
     rt = _fn(DC, "_record_agenttype", "DataCollector")
-    got = [ast.unparse(s) for s in _nodoc(rt.body)[:2]]
-    _skeleton(got, ["rep_funcs = self.agenttype_reporters[agent_type].values()", want[1]], "_record_agenttype")
+    _skeleton([_txt(s) for s in rt.body[:2]],
+              ["v0 = self.agenttype_reporters[agent_type].values()", GET_REPORTS.format(a="v7", p="v3", r="v4", f="v6")], "_record_agenttype")
     return "Definition gen_collect_skeleton_ok : bool := true."
 
 
-RUN_SKELETON = ["run_id, iteration, kwargs = run", "model = model_cls(**kwargs)", "<while>", "data = []", "<steps>", "<steps>", "<steps>",
-                "for step in steps:\n    model_data, all_agents_data = _collect_data(model, step)\n    if all_agents_data:\n"
-                "        stepdata = [{'RunId': run_id, 'iteration': iteration, 'Step': step, **kwargs, **model_data, **agent_data} for agent_data in all_agents_data]\n"
-                "    else:\n        stepdata = [{'RunId': run_id, 'iteration': iteration, 'Step': step, **kwargs, **model_data}]\n    data.extend(stepdata)",
-                "return data"]
-COLLECT_DATA_SKELETON = ["<hasattr>", "dc = model.datacollector", "<positions>", "<model_data>", "all_agents_data = []",
-                         "raw_agent_data = dc._agent_records.get(step, [])",
-                         "for data in raw_agent_data:\n    agent_dict = {'AgentID': data[1]}\n    agent_dict.update(zip(dc.agent_reporters, data[2:]))\n    all_agents_data.append(agent_dict)",
-                         "return (model_data, all_agents_data)"]
-BATCH_SKELETON_TAIL = ["process_func = partial(_model_run_func, model_cls, max_steps=max_steps, data_collection_period=data_collection_period)",
-                       "results: list[dict[str, Any]] = []",
-                       "with tqdm(total=len(runs_list), disable=not display_progress) as pbar:\n    if number_processes == 1:\n        for run in runs_list:\n"
-                       "            data = process_func(run)\n            results.extend(data)\n            pbar.update()\n    else:\n"
-                       "        with Pool(number_processes) as p:\n            for data in p.imap_unordered(process_func, runs_list):\n"
-                       "                results.extend(data)\n                pbar.update()",
-                       "return results"]
+RUN_SKELETON = ["v0, v1, v2 = run", "v3 = model_cls(**v2)", "<while>", "v4 = []", "<steps>", "<steps>", "<steps>",
+                "for v7 in v6:\n    v8, v9 = _collect_data(v3, v7)\n    if v9:\n"
+                "        v10 = [{'RunId': v0, 'iteration': v1, 'Step': v7, **v2, **v8, **v11} for v11 in v9]\n"
+                "    else:\n        v10 = [{'RunId': v0, 'iteration': v1, 'Step': v7, **v2, **v8}]\n    v4.extend(v10)",
+                "return v4"]
+COLLECT_DATA_SKELETON = ["if not hasattr(model, 'datacollector'):\n    raise AttributeError(<msg>)", "v0 = model.datacollector", "<positions>",
+                         "<model_data>", "v3 = []", "v4 = v0._agent_records.get(step, [])",
+                         "for v5 in v4:\n    v6 = {'AgentID': v5[1]}\n    v6.update(zip(v0.agent_reporters, v5[2:]))\n    v3.append(v6)",
+                         "return (v2, v3)"]
 
 
 def c_batch_skeleton():
-    """the glue of batchrunner: the run is unpacked and the model constructed with exactly **kwargs; rows are built per
-    reported step from _collect_data; serial loop and Pool.imap_unordered extend the results with each run's rows"""
-    fn, body, w = _run_func_parts()
+    """the glue of batchrunner that stays a skeleton: the run is unpacked and the model constructed with exactly **kwargs;
+    rows are built per reported step from _collect_data; agent records are looked up under the step"""
+    fn, body, w, _ = _run_func_parts()
     got = []
     i = body.index(w)
     for j, st in enumerate(body):
-        got.append("<while>" if st is w else ("<steps>" if i + 2 <= j <= i + 4 else ast.unparse(st)))
+        got.append("<while>" if st is w else ("<steps>" if i + 2 <= j <= i + 4 else _txt(st)))
     _skeleton(got, RUN_SKELETON, "_model_run_func")
-    cd = _nodoc(_fn(BR, "_collect_data").body)
-    got = []
-    for st in cd:
-        txt = ast.unparse(st)
-        if isinstance(st, ast.If) and "hasattr(model, 'datacollector')" in txt:
-            txt = "<hasattr>"
-        elif txt.startswith("positions = "):
-            txt = "<positions>"
-        elif txt.startswith("model_data = "):
-            txt = "<model_data>"
-        got.append(txt)
+    _, cd, _, pos, md = _collect_data_parts()
+    got = ["<positions>" if st is pos else ("<model_data>" if st is md else _txt(st)) for st in cd]
     _skeleton(got, COLLECT_DATA_SKELETON, "_collect_data")
-    br = _nodoc(_fn(BR, "batch_run").body)
-    _skeleton([ast.unparse(s) for s in br[3:]], BATCH_SKELETON_TAIL, "batch_run")
     return "Definition gen_batch_skeleton_ok : bool := true."
 
 
@@ -475,6 +578,8 @@ CONSTRUCTS = [
      lambda: "Definition gen_param_values (param : Z) (is_str is_lts iterable : bool) (len code : Z) (elems : list Z) : option (list (Z * Z)) := None."),
     ("br_runs_list_code", BR, c_runs_list,
      lambda: "Definition gen_runs_list (iterations : Z) (prod : list (list (Z * Z))) : list (Z * Z * list (Z * Z)) := []."),
+    ("br_results_code", BR, c_results,
+     lambda: "Definition gen_batch_results {R X : Type} (process : X -> list R) (number_processes : Z) (runs order : list X) : list R := []."),
     ("br_skeleton", BR, c_batch_skeleton, lambda: "Definition gen_batch_skeleton_ok : bool := false."),
     ("dc_add_row_code", DC, c_add_row,
      lambda: "Definition gen_add_row_reject (ignore_missing : bool) (cols : list Z) (row : list (Z * option Z)) : bool := false.\n"
